@@ -187,7 +187,6 @@ func (v *Validator) validateConstants() {
 
 // validateGlobalVariables checks all global variables.
 func (v *Validator) validateGlobalVariables() {
-	bindings := make(map[string]bool) // Track binding uniqueness (group:binding)
 	names := make(map[string]bool)
 
 	for i, gv := range v.module.GlobalVariables {
@@ -202,14 +201,9 @@ func (v *Validator) validateGlobalVariables() {
 			v.addError(fmt.Sprintf("global variable %d (%s): type %d does not exist", i, gv.Name, gv.Type))
 		}
 
-		if gv.Binding != nil {
-			key := fmt.Sprintf("%d:%d", gv.Binding.Group, gv.Binding.Binding)
-			if bindings[key] {
-				v.addError(fmt.Sprintf("global variable %q: duplicate binding @group(%d) @binding(%d)",
-					gv.Name, gv.Binding.Group, gv.Binding.Binding))
-			}
-			bindings[key] = true
-		}
+		// Binding uniqueness is a per-entry-point rule (two resources may share
+		// @group/@binding as long as no entry point uses both): see
+		// validateEntryPointBindings.
 
 		if gv.Init != nil {
 			if !v.isValidConstantHandle(*gv.Init) {
@@ -676,6 +670,61 @@ func (v *Validator) validateStatement(index int, stmt *Statement) {
 	}
 }
 
+// validateEntryPointBindings reports two resources with the same @group/@binding that are
+// both used (directly or through called functions) by one entry point.
+func (v *Validator) validateEntryPointBindings(epName string, fn *Function) {
+	used := make(map[GlobalVariableHandle]bool)
+	visited := make(map[FunctionHandle]bool)
+	var walkFn func(f *Function)
+	var walkBlock func(b Block)
+	walkBlock = func(b Block) {
+		for _, stmt := range b {
+			switch k := stmt.Kind.(type) {
+			case StmtCall:
+				if !visited[k.Function] && int(k.Function) < len(v.module.Functions) {
+					visited[k.Function] = true
+					walkFn(&v.module.Functions[k.Function])
+				}
+			case StmtBlock:
+				walkBlock(k.Block)
+			case StmtIf:
+				walkBlock(k.Accept)
+				walkBlock(k.Reject)
+			case StmtSwitch:
+				for _, c := range k.Cases {
+					walkBlock(c.Body)
+				}
+			case StmtLoop:
+				walkBlock(k.Body)
+				walkBlock(k.Continuing)
+			}
+		}
+	}
+	walkFn = func(f *Function) {
+		for _, e := range f.Expressions {
+			if gv, ok := e.Kind.(ExprGlobalVariable); ok {
+				used[gv.Variable] = true
+			}
+		}
+		walkBlock(f.Body)
+	}
+	walkFn(fn)
+
+	type bindingKey struct{ group, binding uint32 }
+	seen := make(map[bindingKey]bool)
+	for h, gv := range v.module.GlobalVariables {
+		if gv.Binding == nil || !used[GlobalVariableHandle(h)] {
+			continue
+		}
+		key := bindingKey{gv.Binding.Group, gv.Binding.Binding}
+		if seen[key] {
+			v.addError(fmt.Sprintf("entry point %q: global variable %q: duplicate binding @group(%d) @binding(%d)",
+				epName, gv.Name, gv.Binding.Group, gv.Binding.Binding))
+		}
+		seen[key] = true
+	}
+}
+
 // validateEntryPoints checks all entry points.
 func (v *Validator) validateEntryPoints() {
 	names := make(map[string]bool)
@@ -691,6 +740,8 @@ func (v *Validator) validateEntryPoints() {
 
 		// Entry point function is stored inline (not via handle).
 		fn := &v.module.EntryPoints[i].Function
+
+		v.validateEntryPointBindings(ep.Name, fn)
 
 		// Validate stage-specific requirements
 		switch ep.Stage {
